@@ -12,6 +12,7 @@ import (
 	"encoding/binary"
 	"errors"
 	"fmt"
+	"runtime"
 	"strings"
 	"sync"
 	"time"
@@ -26,7 +27,7 @@ import (
 // tevent is one trace event (the ndjson schema of ZngFaultTrace.tla).
 type tevent struct {
 	E       string   `json:"e"`
-	Stream  []string `json:"stream,omitempty"`
+	Stream  *[]string `json:"stream,omitempty"`
 	Threads int      `json:"threads,omitempty"`
 	Mode    string   `json:"mode,omitempty"`
 	Done    *bool    `json:"done,omitempty"`
@@ -370,14 +371,22 @@ func nilChanBlocked() string {
 
 func waitQuiesced(d time.Duration) bool {
 	dl := time.Now().Add(d)
-	for {
+	for spin := 0; ; spin++ {
+		// fast path: only the child's main goroutine and the case goroutine are left
+		if runtime.NumGoroutine() <= idleGoroutines+1 {
+			return true
+		}
+		if spin < 200 {
+			runtime.Gosched()
+			continue
+		}
 		if len(repoGoroutines()) == 0 {
 			return true
 		}
 		if time.Now().After(dl) {
 			return false
 		}
-		time.Sleep(100 * time.Microsecond)
+		time.Sleep(500 * time.Microsecond)
 	}
 }
 
@@ -409,10 +418,8 @@ func execProto(c *Case, res *Result) {
 	r := &rec
 	r.mu.Lock()
 	r.active = true
-	r.events = []tevent{{E: "start", Stream: append([]string{}, ps.Stream...), Threads: c.Opts.Threads, Mode: specMode}}
-	if r.events[0].Stream == nil {
-		r.events[0].Stream = []string{}
-	}
+	st := append([]string{}, ps.Stream...)
+	r.events = []tevent{{E: "start", Stream: &st, Threads: c.Opts.Threads, Mode: specMode}}
 	r.chIDs, r.wIDs = map[any]int{}, map[any]int{}
 	r.hold, r.ndone, r.heldSet, r.gateTO = ps.Hold, 0, false, false
 	r.mu.Unlock()
